@@ -22,7 +22,8 @@ VARNAMES = ["X", "True", "False", "None", "ATOM_NIL", "__builtins__", "__class__
 ATOMS = ["foo", "if", "def", "lambda", "class", "import", "l1", "arg1", "doBreak", "cutIf1", "x1", "atom", "query", "variable", "functor", "unify",
          "listpair", "makelist", "none", "not", "is", "in", "yield", "return", "pass", "a_b", "aB9_"]
 QUOTED = ["hello world", "it's", "\"dq\"", "a\nb", "x)", "):", "#c", "__import__('os')", "{0}", "é", "日本", "'; import os; '", "",
-          " ", "\t", "\nimport os\n", "%", "a:-b", "[]", "A", "_", "1", "x" * 300]
+          " ", "\t", "\nimport os\n", "%", "a:-b", "[]", "A", "_", "1", "x" * 300,
+          "foo\n", "\nfoo", "foo\r", "foo ", " foo", "9lives", "foo\n\n", "foo\x0b", "foo\x0c", "f\u2028", "foo\x1c", "foo\x85"]
 
 
 def num(sp):
@@ -81,6 +82,22 @@ def shape_programs(tier):
         out.append(src_from_clauses([clause(C("chain", V(0)), conj(*goals))], label="conj-chain-%d" % n))
         eqs = [call(C("=", V(i), V(i + 1))) for i in range(n)]
         out.append(src_from_clauses([clause(C("eqchain", V(0)), conj(*eqs))], label="eq-chain-%d" % n))
+    # two cooperating clauses: constructs that generate little or no code, followed by a clause at the
+    # edge of what Python accepts (state kept by the generator across functions must not drift)
+    prefixes = {
+        "dead-ite": [clause(A("d1"), or_(then(FAIL, TRUE), FAIL))],
+        "dead-ite-x3": [clause(A("d%d" % i), or_(then(FAIL, TRUE), FAIL)) for i in range(3)],
+        "dead-not": [clause(A("d1"), not_(TRUE)), clause(A("d2"), and_(FAIL, call(A("q"))))],
+        "nested-ite": [clause(C("d1", X), or_(then(call(C("q", X)), or_(then(call(C("r", X)), TRUE), FAIL)), TRUE))],
+        "deep-term": [clause(C("d1", C("s", C("s", C("s", lst([A("a"), A("b")]))))))],
+        "cuts": [clause(A("d1"), conj(CUT, FAIL)), clause(A("d1"), CUT)],
+    }
+    for pn, pcl in prefixes.items():
+        for n in ([18, 19, 20, 21, 22] if tier == "quick" else range(15, 26)):
+            goals = [call(C("q", V(i % 3))) for i in range(n)]
+            chain = clause(C("chain", V(0)), conj(*goals))
+            out.append(src_from_clauses(pcl + [chain], label="prefix-%s-then-chain-%d" % (pn, n)))
+            out.append(src_from_clauses([chain] + pcl, label="chain-%d-then-%s" % (n, pn)))
     # head unification depth: many non-variable head arguments (each one is a nested loop)
     for n in (5, 19, 20, 25):
         out.append(src_from_clauses([clause(C("wide", *[A("a")] * n))], label="wide-head-%d" % n))
